@@ -194,6 +194,11 @@ func generate(prop string, seed uint64, run int, tier string) *Scenario {
 				}
 			}
 		}
+
+		// mutability observation switched on without a stats tracker (nothing to report the observation to)
+		if !sc.FO.Cfg.Stats && chance(lr, 0.08) {
+			sc.FO.Cfg.ObserveMutability = true
+		}
 	}
 
 	return sc
